@@ -16,8 +16,10 @@ RULE = ("one case = one dedicated-process comparison run of the real Equalizer o
         "every position (first, last, consecutive, on recycle boundaries), recycle rates 0-7, timeouts 0-3 s, consumed "
         "fully / closed after n / consumer raising after n / id source raising after n; observed: polls per task, "
         "tasks per worker, state of every worker when the generator stops and after the idle worker's next poll, "
-        "births/deaths/kills, where the parent blocks if it does; quick tier also two real-process anchor scripts "
-        "(unloadable answers; idle worker SIGKILLed between replays); also SEVERAL runs alive in one simulated process "
+        "births/deaths/kills, where the parent blocks if it does; quick tier also four real-process anchor scripts "
+        "(unloadable answers; idle worker SIGKILLed between replays; the run abandoned by Ctrl-C - SIGINT to the whole process group, "
+        "in an interpreter and session of its own - WHILE a replay hangs in the worker, at the first replay of a worker and after one "
+        "it has served: the consumer catches KeyboardInterrupt and gives up the run, no worker may remain); also SEVERAL runs alive in one simulated process "
         "(2-3 equalizers built directly or by one PlaybackStudio - one lazy generator per category -, consumed back to "
         "back, round robin, one ahead, in reverse or in random order, any fault / abandonment in any of them): every "
         "run is observed like a single run (worker ordinals local to the run; a finished run's workers are looked at "
@@ -43,7 +45,7 @@ ASSUMPTIONS = ["os.kill(pid, SIGKILL) succeeds and ends the worker (kill_succeed
                "import time (class attributes, module globals) are replaced by one simulated stand-in each, shared "
                "exactly as the original is"]
 TRUSTED = ["fake multiprocessing / clock / kill (harness/impl/fake_mp.py) under the real Equalizer",
-           "real-process scripts (thorough tier; two of them also in the quick tier) are checked by the direct "
+           "real-process scripts (thorough tier; four of them also in the quick tier) are checked by the direct "
            "predicate only; an anomaly must reproduce three times; a parent that blocks for ever is interrupted by "
            "a SIGALRM watchdog after 15 s",
            "watchdogs of the simulator (a check never hangs): a worker loop that polls its task queue 200 times in one "
@@ -379,7 +381,9 @@ def shrink_multi(case):
 
 def search_harder(rng, bad_cases):
     out = []
-    for c in [b for b in bad_cases if b.get("kind") != "multi"][:10]:
+    # (real-process scripts are fixed anchors with margins of their own - a timeout far above the moment of the interrupt, a
+    # watchdog above the timeout -: no variants of them)
+    for c in [b for b in bad_cases if b.get("kind") not in ("multi", "real")][:10]:
         for rate in (1, 2, 3):
             for mode in ("full", "close"):
                 out.append(dict(c, rate=rate, consume=[mode] if mode == "full" else [mode, max(1, len(c["ids"]) - 1)]))
@@ -388,7 +392,7 @@ def search_harder(rng, bad_cases):
 
 MANIFEST = dict(
     design_ref='6/C13',
-    text="Coq theorems over all scripts, recycle rates, timeouts and abandonment points about the same hand-written model of the equalizer's dispatch / wait / timeout / recycle logic and worker loop as C08: the wait for one result performs at most timeout+1 one-second polls and never runs out of fuel (for every script, late answers included); for scripts of hangs, exits, slow answers and answers the parent cannot use (unloadable item, (False, message)) the run always completes, its modelled duration is the sum of the per-recording costs, after a fault no worker is alive and the next recording is served by a worker that has served nothing else, no worker takes more than max(1, rate) tasks, and after completion or abandonment after any number of yields every worker is dead or idle-and-told-to-terminate and dead after one more step; the late-answer case (parent blocks forever in join, hung worker leaked) is refuted with a witness (known finding F08). Tie: the REAL Equalizer over fake multiprocessing/clock/kill; the full trace (polls per task, tasks per worker, worker states, births/deaths/kills, queue leftovers, flag, clock) is compared with the model by vm_compute; the simulator also tracks where an idle worker sleeps (a worker that dies inside Queue.get leaves the read lock held, one that dies inside Event.wait stays a registered sleeper and the next Event.set blocks forever), with streams of idle deaths (worker dies before taking its task, idle worker killed at the timeout) and of failures that leave the worker in place at every position of short runs; several runs alive in one simulated process (equalizers built directly or by one PlaybackStudio, consumed back to back or interleaved under named and random schedules) must each equal the same run alone (verdicts, polls per task, tasks per worker, births/deaths, flag, leftovers) and leave no worker alive after its next poll once the run has ended, and a run started through PlaybackStudio must carry and enforce the configured timeout / recycle rate / flags (implementation-only cases: the single-run model covers each run alone); direct predicate on the simulator's observables and, in the thorough tier (two anchor scripts also in the quick tier), on real processes (no active children within ~1 s after completion/abandonment, tasks per worker pid <= rate, wall time per comparison bounded).",
+    text="Coq theorems over all scripts, recycle rates, timeouts and abandonment points about the same hand-written model of the equalizer's dispatch / wait / timeout / recycle logic and worker loop as C08: the wait for one result performs at most timeout+1 one-second polls and never runs out of fuel (for every script, late answers included); for scripts of hangs, exits, slow answers and answers the parent cannot use (unloadable item, (False, message)) the run always completes, its modelled duration is the sum of the per-recording costs, after a fault no worker is alive and the next recording is served by a worker that has served nothing else, no worker takes more than max(1, rate) tasks, and after completion or abandonment after any number of yields every worker is dead or idle-and-told-to-terminate and dead after one more step; the late-answer case (parent blocks forever in join, hung worker leaked) is refuted with a witness (known finding F08). Tie: the REAL Equalizer over fake multiprocessing/clock/kill; the full trace (polls per task, tasks per worker, worker states, births/deaths/kills, queue leftovers, flag, clock) is compared with the model by vm_compute; the simulator also tracks where an idle worker sleeps (a worker that dies inside Queue.get leaves the read lock held, one that dies inside Event.wait stays a registered sleeper and the next Event.set blocks forever), with streams of idle deaths (worker dies before taking its task, idle worker killed at the timeout) and of failures that leave the worker in place at every position of short runs; several runs alive in one simulated process (equalizers built directly or by one PlaybackStudio, consumed back to back or interleaved under named and random schedules) must each equal the same run alone (verdicts, polls per task, tasks per worker, births/deaths, flag, leftovers) and leave no worker alive after its next poll once the run has ended, and a run started through PlaybackStudio must carry and enforce the configured timeout / recycle rate / flags (implementation-only cases: the single-run model covers each run alone); direct predicate on the simulator's observables and, in the thorough tier (four anchor scripts also in the quick tier), on real processes (no active children within ~1.5 s after completion/abandonment - by close, consumer exception or Ctrl-C to the process group during a hung replay -, tasks per worker pid <= rate, wall time per comparison bounded).",
     note='Trusted: Coq kernel + vm_compute; hand-written model; the scheduling implemented by the fake multiprocessing layer; os.kill(SIGKILL) succeeds; real wall time, zombies and signal delivery are not claimed by theorem (real-process scripts sample them, an anomaly must reproduce three times).',
     technique='Coq proof (invariant over the parent loop, measure on the wait loop) + model/implementation correspondence by vm_compute over a deterministic multiprocessing simulator + real-process sampling',
 )
